@@ -61,7 +61,17 @@ pub fn check_case(ctx: &Ctx, st: &mut Stats, c: &Case, tag: &str) {
     }
     if c.io == 2 {
         // the output file already exists and is longer than what will be written
-        let _ = std::fs::write(&output, super::common::stale_content());
+        if c.puzzle.len() % 2 == 0 {
+            let _ = std::fs::write(&output, super::common::stale_content());
+        } else {
+            // ... or is what an EARLIER run of the tool wrote there for another puzzle of the same root
+            let earlier = dir.join("earlier puzzle.txt");
+            let side = c.root * c.root;
+            let _ = std::fs::write(&earlier, format!("1{}", ".".repeat(side * side - 1)));
+            let first = vec!["-r".to_string(), c.root.to_string(), earlier.display().to_string(), output.display().to_string()];
+            let _ = cli::run(&ctx.bin("sudoku_gen"), &first, None, Some(&dir), None, Duration::from_secs(60));
+            st.bump("outputs_onto_a_file_left_by_an_earlier_run");
+        }
         args.push(output.display().to_string());
     }
     st.bump(&format!("input_channel_{}", c.io));
@@ -243,7 +253,9 @@ pub fn check_case(ctx: &Ctx, st: &mut Stats, c: &Case, tag: &str) {
     }
 }
 
-const BLANKS: [char; 30] = ['.', '_', 'x', '-', '*', '?', 'o', '"', '·', '□', '＿', 'é', 'a', 'b', 'e', 'g', 'A', 'F', 'z', 'Z', '\u{feff}', '\u{200b}', '\u{ad}', '\u{2031}', '\u{2032}', '\u{2534}', '\u{131}', '\u{3030}', '\u{10031}', '\u{1f039}'];
+const BLANKS: [char; 48] = ['.', '_', 'x', '-', '*', '?', 'o', '"', '·', '□', '＿', 'é', 'a', 'b', 'e', 'g', 'A', 'F', 'z', 'Z', '\u{feff}', '\u{200b}', '\u{ad}', '\u{2031}', '\u{2032}', '\u{2534}', '\u{131}', '\u{3030}', '\u{10031}', '\u{1f039}',
+    // control characters (not whitespace), private-use, unassigned and non-characters, a lone combining mark, punctuation
+    '\0', '\u{1}', '\u{7}', '\u{8}', '\u{1b}', '\u{7f}', '\u{80}', '\u{9f}', '\u{e000}', '\u{fffd}', '\u{10ffff}', '\u{301}', '\u{2060}', '\u{180e}', ',', ';', '|', '#'];
 
 fn layout(rng: &mut Rng, root: usize, grid: &[usize]) -> String {
     let sq = root * root;
@@ -455,7 +467,7 @@ pub fn run(ctx: &Ctx) -> (Stats, Spec) {
         }
     }
     let spec = Spec {
-        rule: "root 1 exhaustively; root 2: the empty puzzle (288 grids) and random hint patterns (0-16 givens taken from valid grids, contradictory patterns incl. box-only conflicts, truncated and over-long inputs, puzzle texts spread over ~30 KiB of whitespace, 5 layouts with spaces/newlines/tabs/CRLF, 6 input channels (regular file, stdin at once / in small pieces, a named pipe or /dev/stdin as INPUT, file-to-file onto an existing longer file), 30 blank symbols incl. the double quote, characters whose code point ends in the byte / 16-bit value of an ASCII digit (U+2031, U+2534, U+0131, U+10031, ..), format characters that are not whitespace (U+FEFF — a byte order mark when it comes first —, U+200B, U+00AD), multi-byte characters (·, □, ＿, é) and ASCII letters that are digits in a larger radix (a, b, e, g, A, F), ASCII and Unicode whitespace); root 3: puzzles with 30-60 givens derived from generated valid grids and the repository's example (exact model sets), sparse puzzles, root 4 and root 5 (one 25 x 25 board [quick], one per worker [thorough]) by structural probes (same digit twice in a unit, two digits / no digit in a cell, givens enforced, a valid grid satisfies, near-misses falsify). Exact = all models enumerated, decoded through _c_is_d and compared as a set with an independent backtracking solver. distinct = (root, normalised givens); non-trivial = at least one given and one blank.".into(),
+        rule: "root 1 exhaustively; root 2: the empty puzzle (288 grids) and random hint patterns (0-16 givens taken from valid grids, contradictory patterns incl. box-only conflicts, truncated and over-long inputs, puzzle texts spread over ~30 KiB of whitespace, 5 layouts with spaces/newlines/tabs/CRLF, 7 input channels (regular file, a regular file named `-`, stdin at once / in small pieces, a named pipe or /dev/stdin as INPUT, file-to-file onto an existing longer file), 48 blank symbols incl. the double quote, control characters that are not whitespace (NUL, BEL, BS, ESC, DEL, U+0080, U+009F), private-use / unassigned / non-characters, a lone combining mark, punctuation, characters whose code point ends in the byte / 16-bit value of an ASCII digit (U+2031, U+2534, U+0131, U+10031, ..), format characters that are not whitespace (U+FEFF — a byte order mark when it comes first —, U+200B, U+00AD), multi-byte characters (·, □, ＿, é) and ASCII letters that are digits in a larger radix (a, b, e, g, A, F), ASCII and Unicode whitespace); root 3: puzzles with 30-60 givens derived from generated valid grids and the repository's example (exact model sets), sparse puzzles, root 4 and root 5 (one 25 x 25 board [quick], one per worker [thorough]) by structural probes (same digit twice in a unit, two digits / no digit in a cell, givens enforced, a valid grid satisfies, near-misses falsify). Exact = all models enumerated, decoded through _c_is_d and compared as a set with an independent backtracking solver. distinct = (root, normalised givens); non-trivial = at least one given and one blank.".into(),
         assumptions: vec![
             "givens are digits between 1 and r^2; 0 and larger digits are outside the statement's domain and are not generated".into(),
             "rsbdd itself cannot solve even the 4x4 formula within minutes, so there is no engine cross-check here".into(),
